@@ -5,6 +5,7 @@ CONSTANTS
   BareSendPublishBatch = FALSE
   BareSendDiscover = FALSE
   UnbufferedSelRecvReply = TRUE
+  BareSendMsg = FALSE
   BatchCap = 1
   DiscCap = 1
   SendCap = 1
